@@ -121,7 +121,14 @@ var cigarOps = []string{"M", "I", "D", "N", "S", "H", "P", "=", "X", "B", "?"}
 //	CigarEqual          1        1
 //	CigarMismatch       1        1
 //	CigarBack           0       -1
-func (ct CigarOpType) Consumes() Consume { return consume[ct] }
+func (ct CigarOpType) Consumes() Consume {
+	if int(ct) >= len(consume) {
+		// Operation codes 11-15 can be stored in a BAM CIGAR word
+		// but are not defined; they consume nothing.
+		return Consume{}
+	}
+	return consume[ct]
+}
 
 // String returns the string representation of a CigarOpType.
 func (ct CigarOpType) String() string {
